@@ -313,8 +313,14 @@ impl GrammarBuilder {
                     ..Production::default()
                 };
 
-                // Inherit meta-data from Rule.
+                // Inherit meta-data from Rule. Associativity given on the
+                // production takes precedence whichever keyword is used.
+                let prod_assoc = new_production.meta.contains_key("left")
+                    || new_production.meta.contains_key("right");
                 for (key, data) in &rule.meta {
+                    if prod_assoc && (key == "left" || key == "right") {
+                        continue;
+                    }
                     if !new_production.meta.contains_key(key) {
                         new_production.meta.insert(key.clone(), data.clone());
                     }
